@@ -6,4 +6,4 @@ while read -r m prop; do
   [ -n "$m" ] || continue
   r=$(tools/try_seeded.sh "$PWD/mutants/$m" $prop 2>&1 | grep -v WARNING | tail -1)
   echo "$m $prop $r" | cut -c1-400 | tee -a mutants/results.txt
-done < mutants/MAP
+done < "${1:-mutants/MAP}"
